@@ -26,7 +26,8 @@ func init() {
 		Assumptions: []string{"range over a slice visits indices in ascending order", "the AWS SDK clients are opaque"},
 		Tech:        "static analysis: loop-structure path rules (failure edges return to the loop head), must-release wipe dataflow, struct-tag sibling agreement between the two plugins",
 		NeedU1:      true,
-		Rules:       []func(*Ctx){ruleC17TryAllRegions, ruleC17ClientOrder, ruleC17EntryPerSuccess, ruleC10Wipe, ruleC10WipeNotEarly, ruleC17SiblingEnvelope, ruleC17PreferredFirst, ruleC17NoLoopVarAlias, ruleC17WorkerContextLives, ruleC17ClientPerRegion, ruleC17KEKMatchedByRegion, ruleC17KEKFieldsFromNamesakes, ruleC17RequestsNameTheConfiguredKey, ruleC17KMSResponsesNotRewritten, ruleC17EveryEnvelopeEntryConsidered, ruleC17WorkersDoNotShareMutatedRequest, ruleC17EveryClientAsked, ruleC10WipedBuffersAreOwned, ruleC07SuccessCarriesData, ruleC03NoPlaintextEscape, errorsPropagateRule("C17", 10, c17ErrExempt, pkgKmsV1, pkgKmsV2), ruleC10NoUnwipedCopies, ruleC17PreferredRegionIsTheCallers, ruleC17WipesAreTheOwners, ruleC17ClientListIsThisInstances, ruleC01CallerBuffersImmutable},
+		NeedU2:      true,
+		Rules:       []func(*Ctx){ruleC17TryAllRegions, ruleC17ClientOrder, ruleC17EntryPerSuccess, ruleC10Wipe, ruleC10WipeNotEarly, ruleC17SiblingEnvelope, ruleC17PreferredFirst, ruleC17NoLoopVarAlias, ruleC17WorkerContextLives, ruleC17ClientPerRegion, ruleC17KEKMatchedByRegion, ruleC17KEKFieldsFromNamesakes, ruleC17RequestsNameTheConfiguredKey, ruleC17KMSResponsesNotRewritten, ruleC17EveryEnvelopeEntryConsidered, ruleC17WorkersDoNotShareMutatedRequest, ruleC17EveryClientAsked, ruleC10WipedBuffersAreOwned, ruleC07SuccessCarriesData, ruleC03NoPlaintextEscape, errorsPropagateRule("C17", 10, c17ErrExempt, pkgKmsV1, pkgKmsV2), ruleC10NoUnwipedCopies, ruleC17PreferredRegionIsTheCallers, ruleC17WipesAreTheOwners, ruleC17ClientListIsThisInstances, ruleC01CallerBuffersImmutable, ruleC17SidecarKMSWiringVerbatim, ruleC17KEKLookedUpForTheAskingClient},
 	})
 }
 
